@@ -1,6 +1,8 @@
 mod alloc;
 mod c08;
 mod c17;
+mod entries;
+mod fuzz;
 mod layout;
 mod proto;
 mod template;
@@ -48,6 +50,24 @@ fn replay_one(r: &Value, prop: &str, rep: &mut Report) {
             };
             rep.evaluations += 1;
             proto::judge_value(prop, entry, &r["case"], &b, &script, &rec, rep);
+        }
+        "fuzz-case" => {
+            let script: transport::ScriptJ = serde_json::from_value(r["script"].clone()).unwrap();
+            let rec = entries::call_entry(r["entry"].as_str().unwrap(), &r["cfg"], &script);
+            for e in rec.events.iter().take(60) {
+                let j = transport::event_json(e).to_string();
+                eprintln!("{}", &j[.. j.len().min(300)]);
+            }
+            eprintln!("outcome: {} alloc peak {} max {}", rec.outcome.to_json().to_string().chars().take(600).collect::<String>(), rec.alloc_peak, rec.alloc_max);
+            rep.evaluations += 1;
+            match &rec.outcome {
+                transport::Outcome::Panic { msg } => rep.violation("C01", &format!("panic {}", valve::first_line(msg)), r.clone()),
+                transport::Outcome::Hang => rep.violation("C01", "does not return", r.clone()),
+                _ => {}
+            }
+            if rec.alloc_max > fuzz::MAX_SINGLE || rec.alloc_peak > fuzz::MAX_LIVE {
+                rep.violation("C13", "allocation above the allowance", r.clone());
+            }
         }
         "buffer-transition" => c17::replay_buffer(&[r["case"].clone()], rep),
         "varint-case" => c17::replay_varint(&[r["case"].clone()], rep),
@@ -148,6 +168,80 @@ fn run(cmd: &str, args: &[String], seed: u64, rep: &mut Report) {
             };
             let all = layout::LayoutSet::load(arg(&args, "--layouts").unwrap());
             c08::replay(&ctx, &all, &read_ndjson(arg(&args, "--in").unwrap()), seed, arg_u64(&args, "--reps", 1) as usize, &mut rep);
+        }
+        "fuzz" => {
+            let threads = arg_u64(&args, "--threads", 8) as usize;
+            let stage = arg(&args, "--stage").unwrap_or("bytes").to_string();
+            let all = fuzz::all_entries();
+            let filt = arg(&args, "--entries").unwrap_or("all").to_string();
+            let chosen: Vec<String> = if filt == "all" {
+                all
+            } else {
+                all.into_iter().filter(|e| filt.split(',').any(|f| e.starts_with(f))).collect()
+            };
+            let lay = arg(&args, "--layouts").unwrap().to_string();
+            let tp = arg(&args, "--templates").unwrap().to_string();
+            let muts = arg(&args, "--mutations").unwrap().to_string();
+            let nbases = arg_u64(&args, "--nbases", 1) as usize;
+            let per_entry = arg_u64(&args, "--per-entry", 200) as usize;
+            let maxpos = arg_u64(&args, "--max-positions", 40) as usize;
+            let journal_path = arg(&args, "--journal").map(|s| s.to_string());
+            let mut handles = Vec::new();
+            for t in 0 .. threads {
+                let mine: Vec<String> = chosen.iter().enumerate().filter(|(i, _)| i % threads == t).map(|(_, e)| e.clone()).collect();
+                let (lay, tp, muts, stage, jp) = (lay.clone(), tp.clone(), muts.clone(), stage.clone(), journal_path.clone());
+                handles.push(std::thread::Builder::new().stack_size(64 << 20).spawn(move || {
+                    let ctx = fuzz::Ctx {
+                        v: valve::Ctx {
+                            layouts: layout::LayoutSet::load(&lay),
+                            templates: template::Templates::load(&tp),
+                            drift: drift_ids(),
+                        },
+                        mutations: read_ndjson(&muts),
+                    };
+                    let mut r = Report::new();
+                    let mut trace = Vec::new();
+                    let mut journal = jp.map(|p| std::fs::File::create(format!("{p}.{t}")).expect("journal"));
+                    let res = std::panic::catch_unwind(std::panic::AssertUnwindSafe(|| {
+                        if stage == "structured" {
+                            fuzz::structured(&ctx, &mine, seed.wrapping_add(t as u64), nbases, maxpos, &mut r, &mut trace, &mut journal);
+                        } else {
+                            fuzz::bytes_stage(&ctx, &mine, seed.wrapping_add(1000 + t as u64), per_entry, &mut r, &mut trace, &mut journal);
+                        }
+                    }));
+                    if res.is_err() {
+                        r.tool_error(&format!("harness panic in fuzz thread: {}", take_panic()));
+                    }
+                    (r, trace)
+                }).unwrap());
+            }
+            let mut all_trace: Vec<Value> = Vec::new();
+            for h in handles {
+                let (r, tr) = h.join().expect("fuzz thread");
+                rep.evaluations += r.evaluations;
+                rep.distinct.extend(r.distinct);
+                for v in r.violations {
+                    rep.violation(Box::leak(v["property"].as_str().unwrap().to_string().into_boxed_str()), v["sig"].as_str().unwrap(), v["replay"].clone());
+                }
+                for (k, n) in r.violation_sigs {
+                    let e = rep.violation_sigs.entry(k).or_insert(0);
+                    *e = (*e).max(n);
+                }
+                for e in r.tool_errors {
+                    rep.tool_error(&e);
+                }
+                if rep.samples.len() < 4 {
+                    if let Some(x) = tr.iter().take(12).cloned().collect::<Vec<_>>().into_iter().reduce(|a, _| a) {
+                        rep.samples.push(json!({"first_trace_event": x}));
+                    }
+                }
+                all_trace.extend(tr);
+            }
+            rep.extra.insert("events".into(), json!(all_trace.len()));
+            rep.extra.insert("entries".into(), json!(chosen.len()));
+            if let Some(p) = arg(&args, "--out-trace") {
+                write_ndjson(p, &all_trace);
+            }
         }
         "replay" => {
             let f: Value = serde_json::from_str(&std::fs::read_to_string(arg(&args, "--in").unwrap()).unwrap()).unwrap();
